@@ -63,7 +63,10 @@ TruthsX == {BaseG(25, dsc, TC0, <<Cue(<<0, 0, 1, 0>>, <<0, 0, 2, 0>>, vp, 2, row
 \* M: metadata
 MetaAll == [f \in {"opt", "oet", "tpt", "tet", "tn", "tcd", "slr", "pub", "en", "ecd", "co", "lang", "mnc", "mnr", "rn"} |->
               CASE f = "lang" -> 2 [] f = "mnc" -> 38 [] f = "mnr" -> 11 [] f = "rn" -> 3 [] OTHER -> 1]
-Metas == {NoMeta, MetaAll, [f \in {"opt", "lang", "mnc", "mnr"} |-> IF f = "opt" THEN 2 ELSE IF f = "lang" THEN 4 ELSE IF f = "mnc" THEN 40 ELSE 23]}
+\* every text field filled to its last byte
+MetaFull == [f \in {"opt", "oet", "tpt", "tet", "tn", "tcd", "slr", "pub", "en", "ecd", "co", "lang", "mnc", "mnr", "rn"} |->
+               CASE f = "lang" -> 3 [] f = "mnc" -> 40 [] f = "mnr" -> 23 [] f = "rn" -> 1 [] OTHER -> 3]
+Metas == {NoMeta, MetaAll, MetaFull, [f \in {"opt", "lang", "mnc", "mnr"} |-> IF f = "opt" THEN 2 ELSE IF f = "lang" THEN 4 ELSE IF f = "mnc" THEN 40 ELSE 23]}
 TruthsM == {[fps |-> fps, dsc |-> dsc, tcp |-> TC0, meta |-> m,
              cues |-> <<Cue(<<0, 0, 1, 0>>, <<0, 0, 2, 0>>, 20, 2, <<IF dsc = 0 THEN <<PlainRun(<<X>>)>> ELSE TRow(65, -1, 0)>>),
                         Cue(<<0, 0, 3, 0>>, <<0, 0, 4, 12>>, 20, 1, <<IF dsc = 0 THEN <<PlainRun(<<Y>>)>> ELSE TRow(66, -1, 0)>>)>>] :
